@@ -673,3 +673,110 @@ Qed.
 Lemma run_reach : forall G s programs sched c tr,
   run G s programs sched = Some (c, tr) -> reach G (init_config s programs) c tr.
 Proof. intros. eapply run_from_reach; [constructor | exact H]. Qed.
+
+(* ================================================================== *)
+(** * D. what the lock buys *)
+
+(* the guard assignment only matters on the operations that are still to be invoked *)
+Lemma step_G_ext : forall G G' c t,
+  (forall o, In o (ts_prog (c_thr c t)) -> G o = G' o) -> step G c t = step G' c t.
+Proof.
+  intros G G' c t H. unfold step. destruct (ts_cur (c_thr c t)); [|reflexivity].
+  destruct (ts_prog (c_thr c t)) as [|o rest]; [reflexivity|]. rewrite (H o) by (left; reflexivity). reflexivity.
+Qed.
+
+Lemma step_prog_subset : forall G c t c' l,
+  step G c t = Some (c', l) -> forall u o, In o (ts_prog (c_thr c' u)) -> In o (ts_prog (c_thr c u)).
+Proof.
+  intros G c t c' l Hs u o. apply step_inv in Hs.
+  destruct (Nat.eq_dec u t) as [->|Hne].
+  - destruct Hs; cbn [c_thr]; rewrite set_thr_same; cbn [ts_prog]; auto.
+    intro Hin. rewrite H0. right. exact Hin.
+  - destruct Hs; cbn [c_thr]; rewrite set_thr_other by assumption; auto.
+Qed.
+
+Lemma run_from_ext : forall G G' sched c tr,
+  (forall t o, In o (ts_prog (c_thr c t)) -> G o = G' o) -> run_from G c tr sched = run_from G' c tr sched.
+Proof.
+  induction sched as [|t sched IH]; simpl; intros c tr H; [reflexivity|].
+  rewrite (step_G_ext G G' c t) by (apply H).
+  destruct (step G' c t) as [[c1 l]|] eqn:E; [|reflexivity].
+  apply IH. intros u o Hin. apply (H u). eapply step_prog_subset; eauto.
+Qed.
+
+(* -- without the Artifact lock: a reader between two updates returns a state that never existed *)
+Definition G_no_artifact_lock (o : op) : bool := match o with Artifact _ => false | _ => true end.
+Definition mix_init : state := state_of [0%N; 0%N] 0%N.
+Definition mix_programs : list (list op) := [[Artifact [0; 1]]; [Update 0 1%N; Update 1 1%N]].
+Definition mix_sched : list tid := [0; 0] ++ repeat 1 7 ++ repeat 1 7 ++ [0; 0].
+
+Lemma mix_run_concrete : exists c tr,
+  run G_no_artifact_lock mix_init mix_programs mix_sched = Some (c, tr) /\
+  calls_of tr = [mkcall 0 (Artifact [0; 1]) (RArt [0%N; 1%N]) 0 17;
+                 mkcall 1 (Update 1 1%N) (RUpd true) 9 15;
+                 mkcall 1 (Update 0 1%N) (RUpd true) 2 8] /\
+  (forall t, ts_cur (c_thr c t) = Idle).
+Proof.
+  eexists. eexists. split; [vm_compute; reflexivity|]. split; [vm_compute; reflexivity|].
+  intros [|[|t]]; vm_compute; reflexivity.
+Qed.
+
+(* the states the parameter store goes through in this run: the two updates are sequential in real time
+   (the first responds at stamp 8, the second is invoked at stamp 9) *)
+Definition mix_states : list state :=
+  [mix_init; fst (seq_step mix_init (Update 0 1%N));
+   fst (seq_step (fst (seq_step mix_init (Update 0 1%N))) (Update 1 1%N))].
+
+Theorem unlocked_artifact_mixed_snapshot : forall G,
+  (forall f, G (Artifact f) = false) -> (forall p v, G (Update p v) = true) ->
+  exists c tr x,
+    reach G (init_config mix_init mix_programs) c tr /\ quiescent c /\
+    In x (calls_of tr) /\ c_op x = Artifact [0; 1] /\
+    (* the artifact is the evaluation of none of the states that ever existed: a mixture *)
+    Forall (fun st => c_resp x <> RArt (map (st_vals st) [0; 1])) mix_states /\
+    ~ linearizable mix_init (calls_of tr).
+Proof.
+  intros G HA HU. destruct mix_run_concrete as [c [tr [Hrun [Hcalls Hq]]]].
+  assert (HR : reach G (init_config mix_init mix_programs) c tr).
+  { apply run_reach with (sched := mix_sched). rewrite <- Hrun. unfold run. apply (run_from_ext G G_no_artifact_lock).
+    intros t o Hin. unfold init_config in Hin. cbn [c_thr ts_prog] in Hin.
+    destruct t as [|[|t]]; simpl in Hin.
+    - destruct Hin as [<-|[]]. rewrite HA. reflexivity.
+    - destruct Hin as [<-|[<-|[]]]; rewrite HU; reflexivity.
+    - destruct t; contradiction. }
+  exists c, tr, (mkcall 0 (Artifact [0; 1]) (RArt [0%N; 1%N]) 0 17).
+  split; [exact HR|]. split; [exact Hq|]. rewrite Hcalls.
+  split; [left; reflexivity|]. split; [reflexivity|]. split.
+  - repeat constructor; simpl; discriminate.
+  - apply linb_false_not_linearizable. vm_compute. reflexivity.
+Qed.
+
+(* -- without the UpdateParameter lock: two concurrent updates, one version increment is lost *)
+Definition G_no_update_lock (o : op) : bool := match o with Update _ _ | BadUpdate _ => false | _ => true end.
+Definition lost_programs : list (list op) := [[Update 0 1%N]; [Update 1 1%N]].
+Definition lost_sched : list tid := [0; 1; 0; 1; 0; 1; 0; 1; 0; 1].
+
+Theorem unlocked_update_loses_version : forall G,
+  (forall p v, G (Update p v) = false) ->
+  exists c tr,
+    reach G (init_config mix_init lost_programs) c tr /\ quiescent c /\
+    List.length (calls_of tr) = 2 /\ Forall (fun x => c_resp x = RUpd true) (calls_of tr) /\
+    c_ver c = 1%N /\
+    st_ver (run_calls mix_init (calls_of tr)) = 2%N.
+Proof.
+  intros G HU.
+  assert (exists c tr, run G_no_update_lock mix_init lost_programs lost_sched = Some (c, tr) /\
+                       (forall t, ts_cur (c_thr c t) = Idle) /\
+                       List.length (calls_of tr) = 2 /\ Forall (fun x => c_resp x = RUpd true) (calls_of tr) /\
+                       c_ver c = 1%N /\ st_ver (run_calls mix_init (calls_of tr)) = 2%N) as [c [tr [Hrun [Hq H]]]].
+  { eexists. eexists. split; [vm_compute; reflexivity|]. split; [intros [|[|t]]; vm_compute; reflexivity|].
+    split; [vm_compute; reflexivity|]. split; [vm_compute; repeat constructor|].
+    split; vm_compute; reflexivity. }
+  exists c, tr. split; [|split; [exact Hq | exact H]].
+  apply run_reach with (sched := lost_sched). rewrite <- Hrun. unfold run. apply (run_from_ext G G_no_update_lock).
+  intros t o Hin. unfold init_config in Hin. cbn [c_thr ts_prog] in Hin.
+  destruct t as [|[|t]]; simpl in Hin.
+  - destruct Hin as [<-|[]]. rewrite HU. reflexivity.
+  - destruct Hin as [<-|[]]. rewrite HU. reflexivity.
+  - destruct t; contradiction.
+Qed.
